@@ -2,6 +2,7 @@ import Pearl.Proofs.EndToEndCrashWins
 import Pearl.Proofs.EndToEndCrashGhost
 import Pearl.Proofs.EndToEndCrashE8Gen
 import Pearl.Proofs.EndToEndCrashTwo
+import Pearl.Proofs.EndToEndCrashIdxSpec
 import Pearl.Props.EndToEnd
 /-
 End-to-end crash recovery (property C06 on the composed storage).
@@ -16,6 +17,10 @@ at `cut id` (index files removed, in-memory state gone), `CState.recover` is `St
 the quarantine decision of `read_blobs` (the existing `CState.restart` when no file is rejected), `crashRecover`
 their composition; `Store.crash` / `Store.crashRecover` the same at L2; `cutKind` / `fate` classify a cut.
 Lemmas: `Pearl/Proofs/EndToEndCrash{,Blob,Store,Ref,Served,Torn,E8,Spec,Wins,Ghost,E8Gen,Two}.lean`.
+
+Extension (last part of the file): the index files are THERE after the crash, at every written length
+(`Pearl/Model/EndToEndCrashIdx.lean`, `Pearl/Proofs/EndToEndCrashIdx{,Blob,Store,Spec}.lean`): `truncated_index_rejected`,
+`crash_with_indexes{,_noTorn,_torn,_run}`, `crash_with_indexes_spec{,_run}`; finding `crash_index_beside_header_only`.
 
 All theorems are about an ARBITRARY state satisfying the invariant `CInv` — which holds after every history of
 operations from the empty storage (`refinement_run`, `refinement_meta_run`); the `_run` versions say so.
@@ -37,6 +42,10 @@ Findings (statements that are FALSE of the model, refuted below on concrete witn
   the torn record — no quarantine, the blob is opened, and the acknowledged post-recovery writes are not indexed:
   they are lost without any error (`two_crash_silent_loss`, general; `two_crash_silent_witness`).  The quarantine
   case is stated on the witness (`two_crash_witness`).
+* "start-up with the index files a crash can leave = start-up with the index files removed" is false for ONE cut: a blob
+  file cut back to exactly its 20 header bytes is opened (empty) without an index file and QUARANTINED when a truncated /
+  stale / half-written index file lies next to it (`crash_index_beside_header_only`,
+  `crash_with_indexes_header_only_false`).  True: `crash_with_indexes` (hypothesis: no index file next to such a blob).
 -/
 namespace Pearl.E2E
 open Pearl Pearl.BPTree Pearl.Container
@@ -956,6 +965,587 @@ end Pearl.E2E
 #print axioms Pearl.E2E.two_crash_silent_witness
 #print axioms Pearl.E2E.recover_eq_restart
 
+/-! # Extension: crash recovery WITH index files at every written length
+
+The C06 quantifier: "every per-file truncation length beyond the last sync (every byte of the tail record, index files
+at every written length)".  Above, the index files are taken as removed; here they are there.
+
+Model: `Pearl/Model/EndToEndCrashIdx.lean` (new definitions only).
+* THE TWO-PHASE DUMP (`BPTreeFileIndex::from_records`): `clean_file`; `create`; `write_append_all(buf)` — the whole
+  buffer, its header carrying the hash and the `written` bit CLEAR —; `header.set_written(true)`;
+  `write_all_at(0, header)` — the 83 header bytes again —; `fsyncdata`.  `DumpStage.bytes` = the content of the index
+  file when this is interrupted: `appending t` (the first `t` bytes of the buffer; `t = 0`: the empty file),
+  `rewriting j` (the first `j` header bytes rewritten), `done`.  `dumpedParts` = what `Blob::dump` hands to
+  `from_records`; `dumpedImage` (of `EndToEndStart.lean`) is its `done` stage (`dumpedImage_eq_parts`).
+* THE DIRECTORY AFTER THE CRASH: `BState.crash` (every blob file cut at `cut id`, memory gone) and, next to the blob
+  whose records were `recs`, `IdxAtCrash cfg sha recs idx`: nothing / the complete image of the dump made when the
+  blob held `recs.take m`, any `m` (current, stale — or describing MORE than the cut blob file holds) / any proper
+  prefix of such an image / any stage of an interrupted dump of `recs.take m`.
+* START-UP: `fromFileQ` = `Blob::from_file` with the index-file bytes (its `ok` arm IS `fromFileB` of
+  `EndToEndStart.lean`: `fromFileQ_ok_iff`) + the decision of `read_blobs` on an `Err` (`should_save_corrupted_blob`);
+  `BState.recoverWithIndexes` = `Storage::init` with quarantine and index files (it returns what the existing
+  `restartWithIndexes` returns whenever that succeeds: `recover_with_indexes_extends_restart`).
+Lemmas: `Pearl/Proofs/EndToEndCrashIdx{,Blob,Store,Spec}.lean`.
+
+FINDING (a blob is quarantined BECAUSE of its index file).  `Blob::from_file` calls `try_regenerate_index` for a
+rejected index file even when the blob file holds the bare header; `RawRecords::start` then reads past the end of the
+file: `Bincode` — which `should_save_corrupted_blob` accepts.  So a blob file cut back to exactly its 20 header bytes
+is opened (empty) when no index file lies next to it, and MOVED TO THE CORRUPTED DIRECTORY when a truncated / stale /
+half-written index file does (`crash_index_beside_header_only`; this is the start-up failure of
+`restart_with_indexes_fails_on_empty_blob`, now with the quarantine decision).  The statement "(2) as asked" is
+therefore false for that one cut and is proved under the hypothesis `cut id = 20 → no index file`
+(`crash_with_indexes`).  With the order of `Blob::dump` (`fsyncdata` of the blob BEFORE the index file is created,
+`Pearl/Model/Fs.lean` `Act.dump`) a power loss cannot produce it: `dirAtCrash_of_synced`.
+-/
+namespace Pearl.E2E
+open Pearl Pearl.BPTree Pearl.Container
+
+/-! ## (1) `truncated_index_rejected` -/
+
+/-- **`truncated_index_rejected`**: `img` is the index file the storage dumps for a blob holding the records `recs`
+    (`3 · blob length + filter section + 4200 < 2^64`, as everywhere at byte level).  For a blob file of ANY length
+    `blobSize`, `IndexStruct::from_file` REJECTS (never accepts, never panics)
+    * every proper prefix of `img` — in particular the empty file and the header-only file (83 bytes);
+    * every prefix of the phase-1 buffer of the two-phase dump, the complete buffer included (`written` clear);
+    and every stage of the two-phase dump leaves `img` itself or a rejected file: the header rewrite (phase 2) changes
+    one byte (offset 72), so a partial rewrite is the phase-1 buffer or the finished file. -/
+theorem truncated_index_rejected {cfg : Cfg} {sha : List Nat → List Nat} (hB : BytesOK cfg sha) {recs : List Rec}
+    (hok : RecsOK cfg recs) (h3 : Sized3 cfg recs) {img : List Nat} (hi : dumpedImage cfg sha recs = some img)
+    (blobSize : Nat) :
+    (∀ t, t < img.length → openIndex cfg blobSize (img.take t) = .rejected) ∧
+    openIndex cfg blobSize [] = .rejected ∧
+    openIndex cfg blobSize (img.take indexHeaderSize) = .rejected ∧
+    ∃ f mb, dumpedParts cfg recs = some (f, mb) ∧ img = DumpStage.done.bytes sha f mb (blobFileLen cfg recs) ∧
+      (∀ t, openIndex cfg blobSize ((DumpStage.appending t).bytes sha f mb (blobFileLen cfg recs)) = .rejected) ∧
+      openIndex cfg blobSize (imageOfUnwritten sha f mb (blobFileLen cfg recs)) = .rejected ∧
+      (∀ j, (DumpStage.rewriting j).bytes sha f mb (blobFileLen cfg recs) =
+        if j ≤ 72 then imageOfUnwritten sha f mb (blobFileLen cfg recs) else img) ∧
+      (∀ st : DumpStage, st.bytes sha f mb (blobFileLen cfg recs) = img ∨
+        openIndex cfg blobSize (st.bytes sha f mb (blobFileLen cfg recs)) = .rejected) := by
+  have hpre := fun t ht => dumped_prefix_rejected hB hok h3 hi blobSize t ht
+  have hlen : 99 ≤ img.length := by
+    obtain ⟨_, mb, off, _, rfl⟩ := dumpedImage_some hok hi
+    unfold imageRecs
+    rw [imageOf_eq_V, List.length_append, indexHeaderBytesV_length _ _ _ _ (show (imageHash sha _ mb _).length = 32 from hB.shaLen _)]
+    have := indexBodyBytes_length_ge (rawFile (fileRecs cfg recs mb)) mb
+    omega
+  have hparts := dumpedImage_eq_parts sha hok (cfg := cfg)
+  rw [hi] at hparts
+  cases hp : dumpedParts cfg recs with
+  | none => rw [hp] at hparts; cases hparts
+  | some p =>
+    obtain ⟨f, mb⟩ := p
+    rw [hp] at hparts
+    simp only [Option.map_some, Option.some.injEq] at hparts
+    have hunw := unwritten_prefix_rejected hB hok h3 hp (blobFileLen cfg recs) blobSize
+    have hfull : openIndex cfg blobSize (imageOfUnwritten sha f mb (blobFileLen cfg recs)) = .rejected := by
+      have := hunw (imageOfUnwritten sha f mb (blobFileLen cfg recs)).length
+      rwa [List.take_length] at this
+    refine ⟨hpre, ?_, hpre _ (by show 83 < _; omega), f, mb, rfl, hparts, hunw, hfull, fun j => ?_, fun st => ?_⟩
+    · have := hpre 0 (by omega)
+      rwa [List.take_zero] at this
+    · rw [rewriting_bytes sha f mb _ j (hB.shaLen _), hparts]; rfl
+    · rcases dump_stage_cases hB hok h3 hp st with h | h
+      · left; rw [hi] at h; exact (Option.some.inj h).symm
+      · exact Or.inr (h blobSize)
+
+/-- **the `blob_size` check, in the direction a crash adds**: the complete image of the dump made when the blob held
+    `ghost.take m` lies next to the blob file cut at `t`, and the surviving file is SHORTER than the blob file the
+    index was dumped for (the index describes records the cut has removed) — or longer (the stale-index rule E4):
+    rejected; the index is regenerated from what the blob file still holds -/
+theorem index_beyond_cut_rejected {cfg : Cfg} {sha : List Nat → List Nat} (hB : BytesOK cfg sha) {b : CBlob}
+    (hb : BlobInv cfg b) (h3 : Sized3 cfg b.ghost) {m : Nat} {img : List Nat}
+    (hi : dumpedImage cfg sha (b.ghost.take m) = some img) (t : Nat) :
+    ((b.file.take t).length < Fs.contentLen cfg.klen (b.ghost.take m) →
+      openIndex cfg (b.file.take t).length img = .rejected) ∧
+    (Fs.contentLen cfg.klen (b.ghost.take m) < (b.file.take t).length →
+      openIndex cfg (b.file.take t).length img = .rejected) :=
+  ⟨fun h => index_blob_size_rejected hB hb h3 hi t (Nat.ne_of_lt h),
+    fun h => index_blob_size_rejected hB hb h3 hi t (Nat.ne_of_gt h)⟩
+
+/-- every index-file content a crash can leave, against a blob file of ANY length `L`: rejected — never a panic —
+    unless it is the complete image of the dump of `recs.take m` and `L` is exactly the length of the blob file of
+    those records -/
+theorem index_at_crash_rejected_or_current {cfg : Cfg} {sha : List Nat → List Nat} (hB : BytesOK cfg sha)
+    {recs : List Rec} (hok : RecsOK cfg recs) (h3 : Sized3 cfg recs) {img : List Nat}
+    (hc : IdxAtCrash cfg sha recs (some img)) (L : Nat) :
+    openIndex cfg L img = .rejected ∨
+    ∃ m, m ≤ recs.length ∧ dumpedImage cfg sha (recs.take m) = some img ∧
+      L = Fs.contentLen cfg.klen (recs.take m) := by
+  rcases openIndex_at_crash hB hok h3 hc L with h | ⟨m, mb, off, hm, hne, hs, himg, hL⟩
+  · exact Or.inl h
+  · refine Or.inr ⟨m, hm, ?_, hL⟩
+    rw [dumpedImage_eq sha (hok.prefix (List.take_prefix m recs)), if_neg hne, hs, himg]
+    rfl
+
+/-! ## (2) `crash_with_indexes` -/
+
+/-- **`crash_with_indexes`** (any state satisfying the invariant): every blob file cut at `cut id` — clean, inside the
+    blob header, inside a record header, inside meta / data (torn) —; next to every blob file any index-file content a
+    crash can leave (`IdxAtCrash`: absent, the complete image of ANY earlier dump of that blob, any proper prefix of
+    one, any stage of an interrupted two-phase dump); no index file next to a blob cut back to its bare header
+    (`h20`, see the FINDING).  Then `Storage::init` on that directory
+    * returns exactly the storage it returns with every index file REMOVED (`dir = fun _ => none`),
+    * which is the translation to bytes of `CState.crashRecover` — the subject of every theorem above
+      (`crash_recover`, `crash_prefix`, `crash_synced_served`, `crash_torn_tail_E8{,_any}`) —, and start-up does
+      not fail.
+    No `NoTorn` hypothesis: an accepted torn tail is accepted with or without the index files. -/
+theorem crash_with_indexes {cfg : Cfg} {sha : List Nat → List Nat} (hB : BytesOK cfg sha) {c : CState}
+    (hinv : CInv cfg c) (hsz : StoreIdxSized cfg (c.abs cfg)) (cut : Nat → Nat) (dir : Nat → Option (List Nat))
+    (hdir : ∀ b ∈ c.blobs, IdxAtCrash cfg sha b.ghost (dir b.id))
+    (h20 : ∀ b ∈ c.blobs, cut b.id = blobHeaderSize → dir b.id = none) (lazy : Bool) :
+    (c.toB sha).crashRecoverWithIndexes cfg sha cut dir lazy =
+      (c.toB sha).crashRecoverWithIndexes cfg sha cut (fun _ => none) lazy ∧
+    ∃ c₁, c.crashRecover cfg cut lazy = some c₁ ∧
+      (c.toB sha).crashRecoverWithIndexes cfg sha cut dir lazy = some (c₁.toB sha) := by
+  have h3 := sized3_of_store hsz
+  have h1 := crashRecoverWithIndexes_toB hB hinv h3 cut dir (dirAtCrash_of_cut hinv cut dir hdir h20) lazy
+  have h2 := crashRecoverWithIndexes_toB hB hinv h3 cut (fun _ => none)
+    (dirAtCrash_of_cut hinv cut _ (fun _ _ => .absent) (fun _ _ _ => rfl)) lazy
+  obtain ⟨c₁, hc₁⟩ := crash_init_total hinv cut lazy
+  refine ⟨by rw [h1, h2], c₁, hc₁, ?_⟩
+  rw [h1, hc₁]; rfl
+
+/-- **… the `NoTorn` case**: the recovered byte-level storage is the translation of a storage `c₁` satisfying the
+    invariant, whose abstraction is `Store.crashRecover` (quarantined blobs left out, every other blob holding exactly
+    the records complete in its surviving prefix); its index files are short enough (`IdxSized`), so every look-up on
+    the bytes answers as the structured storage (`bytes_of_inv`) -/
+theorem crash_with_indexes_noTorn {cfg : Cfg} {sha : List Nat → List Nat} (hB : BytesOK cfg sha) {c : CState}
+    (hinv : CInv cfg c) (hsz : StoreIdxSized cfg (c.abs cfg)) (hne : (c.abs cfg).blobs ≠ []) (cut : Nat → Nat)
+    (dir : Nat → Option (List Nat)) (hdir : ∀ b ∈ c.blobs, IdxAtCrash cfg sha b.ghost (dir b.id))
+    (h20 : ∀ b ∈ c.blobs, cut b.id = blobHeaderSize → dir b.id = none) (lazy : Bool) (hnt : NoTorn cfg c cut) :
+    ∃ c₁, (c.toB sha).crashRecoverWithIndexes cfg sha cut dir lazy = some (c₁.toB sha) ∧
+      c.crashRecover cfg cut lazy = some c₁ ∧ CInv cfg c₁ ∧ c₁.IdxSized ∧
+      c₁.abs cfg = (c.abs cfg).crashRecover cfg.klen cfg.validateData cut lazy ∧
+      (StoreMetaOK (c.abs cfg) → StoreMetaOK (c₁.abs cfg)) := by
+  obtain ⟨_, c₁, hc₁, hB₁⟩ := crash_with_indexes hB hinv hsz cut dir hdir h20 lazy
+  obtain ⟨c₁', hc₁', hinv₁, habs₁, hmeta₁, _⟩ := crash_recover hB.ok hinv cut lazy hnt
+  rw [hc₁] at hc₁'
+  cases hc₁'
+  have hne' : c.blobs ≠ [] := by
+    intro h0; apply hne; rw [abs_blobs, h0]; rfl
+  have hs₁ : c₁.IdxSized := idxSized_of_store hB.ok hinv₁
+    (storeIdxSized_of_sized3 (recovered_sized3 hB.ok hinv (sized3_of_store hsz) hne' cut lazy hc₁))
+  exact ⟨c₁, hB₁, hc₁, hinv₁, hs₁, habs₁, hmeta₁⟩
+
+/-- **… the torn case** (finding E8, `crash_torn_tail_E8_any`): the tail record `n` of blob `b₀` is cut inside meta /
+    data and accepted.  With the index files of `IdxAtCrash` next to the blob files the start-up returns the same
+    storage `c₁` as without — the torn record indexed: `c₁` is `c₂` (the storage recovered had the record been written
+    completely, which satisfies the invariant) with the cut file in blob `b₀`; `contains` answers alike, `read` answers
+    alike or fails with the load error.  In particular no index file of `IdxAtCrash` is accepted for the torn blob:
+    its `blob_size` is a record boundary, the cut is not. -/
+theorem crash_with_indexes_torn {cfg : Cfg} {sha : List Nat → List Nat} (hB : BytesOK cfg sha) {c : CState}
+    (hinv : CInv cfg c) (hsz : StoreIdxSized cfg (c.abs cfg)) (cut : Nat → Nat) (dir : Nat → Option (List Nat))
+    (hdir : ∀ b ∈ c.blobs, IdxAtCrash cfg sha b.ghost (dir b.id))
+    (h20 : ∀ b ∈ c.blobs, cut b.id = blobHeaderSize → dir b.id = none) (lazy : Bool)
+    {b₀ : CBlob} (hb₀ : b₀ ∈ c.blobs) {n : Nat}
+    (hf : fate cfg.klen cfg.validateData b₀.ghost (cut b₀.id) = .opened n true)
+    (hothers : ∀ b ∈ c.blobs, b ≠ b₀ → ∀ m, fate cfg.klen cfg.validateData b.ghost (cut b.id) ≠ .opened m true) :
+    (∀ img, dir b₀.id = some img → openIndex cfg (b₀.file.take (cut b₀.id)).length img = .rejected) ∧
+    ∃ c₁ c₂, (c.toB sha).crashRecoverWithIndexes cfg sha cut dir lazy = some (c₁.toB sha) ∧
+      c.crashRecover cfg (cutPlus cfg b₀ n cut) lazy = some c₂ ∧ CInv cfg c₂ ∧
+      c₁ = c₂.mapBlobs (refileId b₀.id (b₀.file.take (cut b₀.id)) (b₀.ghost.take n)) ∧
+      (∀ k, c₁.contains cfg k = c₂.contains cfg k) ∧
+      (∀ k, c₁.read cfg k = c₂.read cfg k ∨ c₁.read cfg k = .error (.load .bincode)) := by
+  obtain ⟨_, c₁, hc₁, hB₁⟩ := crash_with_indexes hB hinv hsz cut dir hdir h20 lazy
+  obtain ⟨c₁', c₂, h1, h2, h3, _, h5, h6, h7, _⟩ := crash_torn_tail_E8_any hB.ok hinv hb₀ cut lazy hf hothers
+  rw [hc₁] at h1
+  cases h1
+  refine ⟨fun img hd => ?_, c₁, c₂, hB₁, h2, h3, h5, h6, h7⟩
+  have hbi : BlobInv cfg b₀ := CInvG.blobInv hinv hb₀
+  have hc := hdir b₀ hb₀
+  rw [hd] at hc
+  rcases openIndex_at_crash hB hbi.recsOK (sized3_of_store hsz b₀ hb₀) hc (b₀.file.take (cut b₀.id)).length with
+    h | ⟨m, _, _, hm, _, _, _, hL⟩
+  · exact h
+  · exfalso
+    obtain ⟨k, hk⟩ := cutKind_of_length_boundary hbi hm hL
+    rw [(fate_opened_true hf).1] at hk
+    cases hk
+
+/-- the existing start-up with index files (`restartWithIndexes`: a failing `Blob::from_file` fails `init`) is the
+    special case of `recoverWithIndexes` in which nothing has to be quarantined -/
+theorem recover_with_indexes_extends_restart {cfg : Cfg} {sha : List Nat → List Nat} (c : BState)
+    (dir : Nat → Option (List Nat)) (lazy : Bool) {b' : BState}
+    (h : c.restartWithIndexes cfg sha dir lazy = some b') : c.recoverWithIndexes cfg sha dir lazy = some b' :=
+  recoverWithIndexes_of_restart c dir lazy h
+
+/-! ## (3) `crash_with_indexes_spec` -/
+
+/-- **`crash_with_indexes_spec`**: under the hypotheses of `crash_with_indexes`, at a cut where no blob is opened with
+    a torn tail record (`NoTorn`), the storage recovered WITH the index files answers per `Spec` on the history of
+    `Store.crashRecover` (the records complete in the surviving prefixes of the blobs that are not quarantined):
+    `read` / `contains`, `read_with` / `contains_with` for every meta, `read_all_with_deletion_marker`, `read_all` —
+    all through the byte-level look-ups -/
+theorem crash_with_indexes_spec {cfg : Cfg} {sha : List Nat → List Nat} (hB : BytesOK cfg sha) {c : CState}
+    (hinv : CInv cfg c) (hmeta : StoreMetaOK (c.abs cfg)) (hsz : StoreIdxSized cfg (c.abs cfg))
+    (hne : (c.abs cfg).blobs ≠ []) (cut : Nat → Nat)
+    (dir : Nat → Option (List Nat)) (hdir : ∀ b ∈ c.blobs, IdxAtCrash cfg sha b.ghost (dir b.id))
+    (h20 : ∀ b ∈ c.blobs, cut b.id = blobHeaderSize → dir b.id = none) (lazy : Bool) (hnt : NoTorn cfg c cut) :
+    ∃ b₁, (c.toB sha).crashRecoverWithIndexes cfg sha cut dir lazy = some b₁ ∧
+      ∀ k,
+        let H := ((c.abs cfg).crashRecover cfg.klen cfg.validateData cut lazy).history
+        b₁.readWithOpt cfg k none = .ok ((Spec.latest H k).map (fun p => dataOf p.r.data)) ∧
+        b₁.containsWith cfg k none = .ok ((Spec.latest H k).map (·.r.ts)) ∧
+        (∀ m, MetaOK m →
+          b₁.readWithOpt cfg k (some m) = .ok ((Spec.readWith H k m).map (fun p => dataOf p.r.data)) ∧
+          b₁.containsWith cfg k (some m) = .ok ((Spec.readWith H k m).map (·.r.ts))) ∧
+        (∃ es, b₁.readAllMarked cfg k = .ok es ∧ es.map entryView = (Spec.allCut H k).map (fun p => recView p.r)) ∧
+        (∃ es, b₁.readAll cfg k = .ok es ∧ es.map entryView = (Spec.allLive H k).map (fun p => recView p.r)) := by
+  obtain ⟨c₁, hB₁, _, hinv₁, hs₁, habs₁, hmeta₁⟩ :=
+    crash_with_indexes_noTorn hB hinv hsz hne cut dir hdir h20 lazy hnt
+  refine ⟨c₁.toB sha, hB₁, fun k => ?_⟩
+  intro H
+  obtain ⟨e1, e2, e3, e4, _, _⟩ := bytes_of_inv hB c₁ hinv₁ hs₁
+  have hr := read_of_inv hB.ok c₁ hinv₁ k
+  have hall := read_all_of_inv hB.ok c₁ hinv₁ k
+  rw [habs₁] at hr hall
+  refine ⟨by rw [e1]; exact hr.1, by rw [e2]; exact hr.2, fun m hm => ?_, by rw [e3]; exact hall.1,
+    by rw [e4]; exact hall.2⟩
+  have := read_with_of_inv hB.ok c₁ hinv₁ (hmeta₁ hmeta) k m hm
+  rw [habs₁] at this
+  exact ⟨by rw [e1]; exact this.2.1, by rw [e2]; exact this.2.2⟩
+
+/-! ## … for every history -/
+
+/-- **`crash_with_indexes` for every history** of operations (with metadata) from the empty directory, the hypotheses
+    on the L2 store of the history: `b` is the byte-level storage the history leaves, every blob file is cut, every
+    blob has any index-file content a crash can leave next to it (none next to a blob cut back to 20 bytes).
+    Start-up with the index files = start-up without = the translation of `crashRecover`. -/
+theorem crash_with_indexes_run {cfg : Cfg} {sha : List Nat → List Nat} (hB : BytesOK cfg sha) (ops : List MOp)
+    (hops : ∀ op ∈ ops, op.OK cfg) (hsz : StoreIdxSized cfg ((Store.init cfg.allowDup).run (ops.map MOp.abs)))
+    (cut : Nat → Nat) (dir : Nat → Option (List Nat))
+    (hdir : ∀ x ∈ ((Store.init cfg.allowDup).run (ops.map MOp.abs)).blobs, IdxAtCrash cfg sha x.recs (dir x.id))
+    (h20 : ∀ x ∈ ((Store.init cfg.allowDup).run (ops.map MOp.abs)).blobs,
+      cut x.id = blobHeaderSize → dir x.id = none) (lazy : Bool) :
+    let b := (BState.init cfg).runB cfg sha ops
+    let c := (CState.init cfg).runM cfg ops
+    b.crashRecoverWithIndexes cfg sha cut dir lazy = b.crashRecoverWithIndexes cfg sha cut (fun _ => none) lazy ∧
+    ∃ c₁, c.crashRecover cfg cut lazy = some c₁ ∧ b.crashRecoverWithIndexes cfg sha cut dir lazy = some (c₁.toB sha) := by
+  intro b c
+  have hb : b = c.toB sha := runB_eq hB ops hops hsz.toStoreSized (idxSized_of_final hB.ok ops hops hsz)
+  obtain ⟨habs, hinv, _⟩ := runM_ref hB.ok ops hops hsz.toStoreSized
+  have key : ∀ (P : Blob → Prop), (∀ x ∈ ((Store.init cfg.allowDup).run (ops.map MOp.abs)).blobs, P x) →
+      ∀ y ∈ c.blobs, P y.abs := by
+    intro P h y hy
+    exact h y.abs (by rw [← habs, abs_blobs]; exact List.mem_map.mpr ⟨y, hy, rfl⟩)
+  rw [hb]
+  exact crash_with_indexes hB hinv (by rw [habs]; exact hsz) cut dir
+    (key (fun x => IdxAtCrash cfg sha x.recs (dir x.id)) hdir)
+    (key (fun x => cut x.id = blobHeaderSize → dir x.id = none) h20) lazy
+
+/-- **`crash_with_indexes_spec` for every history**: no blob opened with a torn tail (stated on the L2 store) -/
+theorem crash_with_indexes_spec_run {cfg : Cfg} {sha : List Nat → List Nat} (hB : BytesOK cfg sha) (ops : List MOp)
+    (hops : ∀ op ∈ ops, op.OK cfg) (hsz : StoreIdxSized cfg ((Store.init cfg.allowDup).run (ops.map MOp.abs)))
+    (cut : Nat → Nat) (dir : Nat → Option (List Nat))
+    (hdir : ∀ x ∈ ((Store.init cfg.allowDup).run (ops.map MOp.abs)).blobs, IdxAtCrash cfg sha x.recs (dir x.id))
+    (h20 : ∀ x ∈ ((Store.init cfg.allowDup).run (ops.map MOp.abs)).blobs,
+      cut x.id = blobHeaderSize → dir x.id = none) (lazy : Bool)
+    (hnt : ∀ x ∈ ((Store.init cfg.allowDup).run (ops.map MOp.abs)).blobs, ∀ n,
+      fate cfg.klen cfg.validateData x.recs (cut x.id) ≠ .opened n true) :
+    let s := (Store.init cfg.allowDup).run (ops.map MOp.abs)
+    ∃ b₁, ((BState.init cfg).runB cfg sha ops).crashRecoverWithIndexes cfg sha cut dir lazy = some b₁ ∧
+      ∀ k,
+        let H := (s.crashRecover cfg.klen cfg.validateData cut lazy).history
+        b₁.readWithOpt cfg k none = .ok ((Spec.latest H k).map (fun p => dataOf p.r.data)) ∧
+        b₁.containsWith cfg k none = .ok ((Spec.latest H k).map (·.r.ts)) ∧
+        (∀ m, MetaOK m →
+          b₁.readWithOpt cfg k (some m) = .ok ((Spec.readWith H k m).map (fun p => dataOf p.r.data)) ∧
+          b₁.containsWith cfg k (some m) = .ok ((Spec.readWith H k m).map (·.r.ts))) ∧
+        (∃ es, b₁.readAllMarked cfg k = .ok es ∧ es.map entryView = (Spec.allCut H k).map (fun p => recView p.r)) ∧
+        (∃ es, b₁.readAll cfg k = .ok es ∧ es.map entryView = (Spec.allLive H k).map (fun p => recView p.r)) := by
+  intro s
+  have hb : (BState.init cfg).runB cfg sha ops = ((CState.init cfg).runM cfg ops).toB sha :=
+    runB_eq hB ops hops hsz.toStoreSized (idxSized_of_final hB.ok ops hops hsz)
+  obtain ⟨habs, hinv, hmeta⟩ := runM_ref hB.ok ops hops hsz.toStoreSized
+  have key : ∀ (P : Blob → Prop), (∀ x ∈ s.blobs, P x) → ∀ y ∈ ((CState.init cfg).runM cfg ops).blobs, P y.abs := by
+    intro P h y hy
+    exact h y.abs (by
+      show y.abs ∈ ((Store.init cfg.allowDup).run (ops.map MOp.abs)).blobs
+      rw [← habs, abs_blobs]; exact List.mem_map.mpr ⟨y, hy, rfl⟩)
+  have := crash_with_indexes_spec hB hinv hmeta (by rw [habs]; exact hsz)
+    (by rw [habs]; exact run_blobs_ne_nil _ _) cut dir
+    (key (fun x => IdxAtCrash cfg sha x.recs (dir x.id)) hdir)
+    (key (fun x => cut x.id = blobHeaderSize → dir x.id = none) h20) lazy
+    (key (fun x => ∀ n, fate cfg.klen cfg.validateData x.recs (cut x.id) ≠ .opened n true) hnt)
+  rw [habs, ← hb] at this
+  exact this
+
+end Pearl.E2E
+
+/-! ## non-vacuity (crash recovery with index files), and the refutation
+
+The history of `CrashDemo` at byte level (key length 1; blob 0 closed and dumped: two records, 155 bytes, index file
+314 bytes; blob 1 active: records ending at 89 and 159, never dumped), `DemoB.sha` for SHA-256. -/
+namespace Pearl.E2E
+open Pearl Pearl.BPTree Pearl.Container
+
+namespace CrashIdxDemo
+
+theorem ok : BytesOK CrashDemo.cfg DemoB.sha := ⟨CrashDemo.cfg_ok, fun _ => by simp [DemoB.sha]⟩
+
+def mops : List MOp := CrashDemo.ops.map COp.toM
+
+theorem mops_ok : ∀ op ∈ mops, op.OK CrashDemo.cfg := by decide
+
+set_option maxRecDepth 100000 in
+theorem store_idx_sized :
+    StoreIdxSized CrashDemo.cfg ((Store.init CrashDemo.cfg.allowDup).run (mops.map MOp.abs)) := by
+  unfold StoreIdxSized; decide
+
+/-- the byte-level storage the history leaves -/
+def b : BState := (BState.init CrashDemo.cfg).runB CrashDemo.cfg DemoB.sha mops
+
+def recs0 : List Rec := [⟨1, 5, false, none, ⟨2, 1⟩⟩, ⟨2, 6, false, none, ⟨1, 2⟩⟩]
+def recs1 : List Rec := [⟨1, 7, false, none, ⟨3, 3⟩⟩, ⟨3, 8, false, none, ⟨4, 4⟩⟩]
+
+set_option maxRecDepth 1000000 in
+theorem blobs_eq : ((Store.init CrashDemo.cfg.allowDup).run (mops.map MOp.abs)).blobs
+    = [{ id := 0, recs := recs0, onDisk := true }, { id := 1, recs := recs1 }] := by decide
+
+/-- what the state shows of itself -/
+def view (b : BState) : List (Nat × Nat × Bool) × Option Nat × Nat :=
+  (b.blobs.map (fun x => (x.id, x.file.length, x.index.onDisk)), b.active.map (·.id), b.nextId)
+
+/-- blob 0: its current index file.  Blob 1: the index file of a dump made after its first record (never made in
+    this history: a left-over) — current for the blob cut at 89, stale for the intact blob -/
+def dirCur : Nat → Option (List Nat)
+  | 0 => dumpedImage CrashDemo.cfg DemoB.sha (recs0.take 2)
+  | 1 => dumpedImage CrashDemo.cfg DemoB.sha (recs1.take 1)
+  | _ => none
+
+/-- blob 0: its index file cut at 200 of 314 bytes.  Blob 1: the index file of the dump of BOTH its records
+    (`blob_size = 159`) — it says more than the blob cut at 89 holds -/
+def dirMore : Nat → Option (List Nat)
+  | 0 => (dumpedImage CrashDemo.cfg DemoB.sha (recs0.take 2)).map (·.take 200)
+  | 1 => dumpedImage CrashDemo.cfg DemoB.sha (recs1.take 2)
+  | _ => none
+
+/-- blob 0: a dump interrupted during the header rewrite (40 bytes rewritten: the `written` byte not yet).  Blob 1: a
+    dump of its first record interrupted after 50 bytes of the buffer -/
+def dirHalf : Nat → Option (List Nat)
+  | 0 => (dumpedParts CrashDemo.cfg (recs0.take 2)).map
+      (fun p => (DumpStage.rewriting 40).bytes DemoB.sha p.1 p.2 (blobFileLen CrashDemo.cfg (recs0.take 2)))
+  | 1 => (dumpedParts CrashDemo.cfg (recs1.take 1)).map
+      (fun p => (DumpStage.appending 50).bytes DemoB.sha p.1 p.2 (blobFileLen CrashDemo.cfg (recs1.take 1)))
+  | _ => none
+
+set_option maxRecDepth 1000000 in
+theorem img0_length : (dumpedImage CrashDemo.cfg DemoB.sha (recs0.take 2)).map (·.length) = some 314 := by
+  decide +kernel
+
+theorem dirCur_ok : ∀ x ∈ ((Store.init CrashDemo.cfg.allowDup).run (mops.map MOp.abs)).blobs,
+    IdxAtCrash CrashDemo.cfg DemoB.sha x.recs (dirCur x.id) := by
+  rw [blobs_eq]
+  intro x hx
+  simp only [List.mem_cons, List.not_mem_nil, or_false] at hx
+  rcases hx with rfl | rfl
+  · exact IdxAtCrash.of_dumped_take _ _ recs0 2 (by decide)
+  · exact IdxAtCrash.of_dumped_take _ _ recs1 1 (by decide)
+
+theorem dirMore_ok : ∀ x ∈ ((Store.init CrashDemo.cfg.allowDup).run (mops.map MOp.abs)).blobs,
+    IdxAtCrash CrashDemo.cfg DemoB.sha x.recs (dirMore x.id) := by
+  rw [blobs_eq]
+  intro x hx
+  simp only [List.mem_cons, List.not_mem_nil, or_false] at hx
+  rcases hx with rfl | rfl
+  · refine IdxAtCrash.of_truncated_take _ _ recs0 2 200 (by decide) (fun img hd => ?_)
+    have hl := img0_length
+    rw [hd] at hl
+    simp only [Option.map_some, Option.some.injEq] at hl
+    omega
+  · exact IdxAtCrash.of_dumped_take _ _ recs1 2 (by decide)
+
+theorem dirHalf_ok : ∀ x ∈ ((Store.init CrashDemo.cfg.allowDup).run (mops.map MOp.abs)).blobs,
+    IdxAtCrash CrashDemo.cfg DemoB.sha x.recs (dirHalf x.id) := by
+  rw [blobs_eq]
+  intro x hx
+  simp only [List.mem_cons, List.not_mem_nil, or_false] at hx
+  rcases hx with rfl | rfl
+  · exact IdxAtCrash.of_interrupted_take _ _ recs0 2 (.rewriting 40) (by decide)
+  · exact IdxAtCrash.of_interrupted_take _ _ recs1 1 (.appending 50) (by decide)
+
+theorem h20 (cut : Nat → Nat) (dir : Nat → Option (List Nat)) (h : cut 0 ≠ 20 ∧ cut 1 ≠ 20) :
+    ∀ x ∈ ((Store.init CrashDemo.cfg.allowDup).run (mops.map MOp.abs)).blobs,
+      cut x.id = blobHeaderSize → dir x.id = none := by
+  rw [blobs_eq]
+  intro x hx
+  simp only [List.mem_cons, List.not_mem_nil, or_false] at hx
+  rcases hx with rfl | rfl
+  · intro h0; exact absurd h0 h.1
+  · intro h1; exact absurd h1 h.2
+
+end CrashIdxDemo
+
+-- (1) `truncated_index_rejected` on the index file of blob 0 (314 bytes), and evaluated: the empty file, the header
+-- only, a cut inside the record headers, the phase-1 buffer, are rejected for the blob of 155 bytes; the file is used
+set_option maxRecDepth 1000000 in
+example (img : List Nat) (hi : dumpedImage CrashDemo.cfg DemoB.sha CrashIdxDemo.recs0 = some img) (blobSize : Nat) :=
+  truncated_index_rejected CrashIdxDemo.ok (recs := CrashIdxDemo.recs0)
+    ⟨by decide, by decide, by decide⟩ (by unfold Sized3; decide) hi blobSize
+
+set_option maxRecDepth 1000000 in
+example : (dumpedImage CrashDemo.cfg DemoB.sha CrashIdxDemo.recs0).map (·.length) = some 314 ∧
+    (dumpedImage CrashDemo.cfg DemoB.sha CrashIdxDemo.recs0).map
+      (fun img => [0, 83, 200, 313].map (fun t => openIndex CrashDemo.cfg 155 (img.take t)))
+      = some [.rejected, .rejected, .rejected, .rejected] ∧
+    ((dumpedImage CrashDemo.cfg DemoB.sha CrashIdxDemo.recs0).map (openIndex CrashDemo.cfg 155)).isSome = true ∧
+    (dumpedImage CrashDemo.cfg DemoB.sha CrashIdxDemo.recs0).map (openIndex CrashDemo.cfg 155) ≠ some .rejected ∧
+    (dumpedImage CrashDemo.cfg DemoB.sha CrashIdxDemo.recs0).map (openIndex CrashDemo.cfg 155) ≠ some .panic ∧
+    (CrashIdxDemo.dirHalf 0).map (openIndex CrashDemo.cfg 155) = some .rejected ∧
+    (CrashIdxDemo.dirHalf 0).map (·.length) = some 314 := by
+  refine ⟨?_, ?_, ?_, ?_, ?_, ?_, ?_⟩ <;> decide +kernel
+
+-- the `blob_size` check: the index file of BOTH records of blob 1 next to the blob cut at 89 (it says more than the
+-- blob holds) is rejected; the index file of its first record is accepted for the blob cut at 89 and rejected for the
+-- intact blob (159 bytes)
+set_option maxRecDepth 1000000 in
+example : (CrashIdxDemo.dirMore 1).map (openIndex CrashDemo.cfg 89) = some .rejected ∧
+    (CrashIdxDemo.dirCur 1).map (openIndex CrashDemo.cfg 159) = some .rejected ∧
+    ((CrashIdxDemo.dirCur 1).map (openIndex CrashDemo.cfg 89)).isSome = true ∧
+    (CrashIdxDemo.dirCur 1).map (openIndex CrashDemo.cfg 89) ≠ some .rejected ∧
+    (CrashIdxDemo.dirCur 1).map (openIndex CrashDemo.cfg 89) ≠ some .panic := by
+  refine ⟨?_, ?_, ?_, ?_, ?_⟩ <;> decide +kernel
+
+-- (2) `crash_with_indexes_run` on the three directories: the clean cut `cutB` (blob 1 at 89), the cut inside a record
+-- header `cutH` (blob 1 is quarantined), the torn cut `cutT` (blob 1 at 150, inside the data of its second record)
+example (lazy : Bool) := crash_with_indexes_run CrashIdxDemo.ok CrashIdxDemo.mops CrashIdxDemo.mops_ok
+  CrashIdxDemo.store_idx_sized CrashDemo.cutB CrashIdxDemo.dirCur CrashIdxDemo.dirCur_ok
+  (CrashIdxDemo.h20 _ _ (by decide)) lazy
+example (lazy : Bool) := crash_with_indexes_run CrashIdxDemo.ok CrashIdxDemo.mops CrashIdxDemo.mops_ok
+  CrashIdxDemo.store_idx_sized CrashDemo.cutH CrashIdxDemo.dirMore CrashIdxDemo.dirMore_ok
+  (CrashIdxDemo.h20 _ _ (by decide)) lazy
+example (lazy : Bool) := crash_with_indexes_run CrashIdxDemo.ok CrashIdxDemo.mops CrashIdxDemo.mops_ok
+  CrashIdxDemo.store_idx_sized CrashDemo.cutT CrashIdxDemo.dirHalf CrashIdxDemo.dirHalf_ok
+  (CrashIdxDemo.h20 _ _ (by decide)) lazy
+
+-- evaluated: with the current index files (`init_lazy`) both are USED (`OnDisk`), without them (or with rejected
+-- ones) the indexes are regenerated and dumped — the same storage; the torn record is indexed either way
+set_option maxRecDepth 1000000 in
+example :
+    (CrashIdxDemo.b.crashRecoverWithIndexes CrashDemo.cfg DemoB.sha CrashDemo.cutB CrashIdxDemo.dirCur true).map
+      CrashIdxDemo.view = some ([(0, 155, true), (1, 89, true)], none, 2) ∧
+    (CrashIdxDemo.b.crashRecoverWithIndexes CrashDemo.cfg DemoB.sha CrashDemo.cutB CrashIdxDemo.dirMore false).map
+      CrashIdxDemo.view = some ([(0, 155, true), (1, 89, false)], some 1, 2) ∧
+    (CrashIdxDemo.b.crashRecoverWithIndexes CrashDemo.cfg DemoB.sha CrashDemo.cutH CrashIdxDemo.dirMore false).map
+      CrashIdxDemo.view = some ([(0, 155, false)], some 0, 2) ∧
+    (CrashIdxDemo.b.crashRecoverWithIndexes CrashDemo.cfg DemoB.sha CrashDemo.cutT CrashIdxDemo.dirHalf false).map
+      CrashIdxDemo.view = some ([(0, 155, true), (1, 150, false)], some 1, 2) ∧
+    (CrashIdxDemo.b.crashRecoverWithIndexes CrashDemo.cfg DemoB.sha CrashDemo.cutT CrashIdxDemo.dirHalf false).map
+      (fun b₁ => (b₁.readWithOpt CrashDemo.cfg 3 none, (b₁.containsWith CrashDemo.cfg 3 none).toOption))
+      = some (.error (.load .bincode), some (.found 8)) := by
+  refine ⟨?_, ?_, ?_, ?_, ?_⟩ <;> decide +kernel
+
+-- (3) `crash_with_indexes_spec_run`: the clean cut, every key, every meta
+example (lazy : Bool) := crash_with_indexes_spec_run CrashIdxDemo.ok CrashIdxDemo.mops CrashIdxDemo.mops_ok
+  CrashIdxDemo.store_idx_sized CrashDemo.cutB CrashIdxDemo.dirCur CrashIdxDemo.dirCur_ok
+  (CrashIdxDemo.h20 _ _ (by decide)) lazy
+  (by
+    rw [CrashIdxDemo.blobs_eq]
+    have h : ∀ x ∈ [({ id := 0, recs := CrashIdxDemo.recs0, onDisk := true } : Blob),
+        { id := 1, recs := CrashIdxDemo.recs1 }],
+        fate CrashDemo.cfg.klen CrashDemo.cfg.validateData x.recs (CrashDemo.cutB x.id) =
+          .opened (complete CrashDemo.cfg.klen x.recs (CrashDemo.cutB x.id)) false := by decide
+    intro x hx n hf
+    rw [h x hx] at hf
+    cases hf)
+
+set_option maxRecDepth 1000000 in
+example :
+    (CrashIdxDemo.b.crashRecoverWithIndexes CrashDemo.cfg DemoB.sha CrashDemo.cutB CrashIdxDemo.dirCur true).map
+      (fun b₁ => (b₁.readWithOpt CrashDemo.cfg 1 none, b₁.readWithOpt CrashDemo.cfg 2 none,
+        b₁.readWithOpt CrashDemo.cfg 3 none)) =
+      some (.ok (.found (dataOf ⟨3, 3⟩)), .ok (.found (dataOf ⟨1, 2⟩)), .ok .notFound) := by decide +kernel
+
+/-! ### the refutation: an index file next to a blob cut back to its bare header -/
+
+namespace CrashIdxDemo
+
+/-- blob 1 cut back to the 20 bytes of its blob header -/
+def cut20 (id : Nat) : Nat := if id = 1 then 20 else 1000
+
+/-- … and an EMPTY index file next to it (a proper prefix — 0 bytes — of the image of a dump of its first record:
+    `clean_file` / `create` of an interrupted dump leave exactly this) -/
+def dirE : Nat → Option (List Nat)
+  | 1 => (dumpedImage CrashDemo.cfg DemoB.sha (recs1.take 1)).map (·.take 0)
+  | _ => none
+
+set_option maxRecDepth 1000000 in
+theorem dirE_ok : ∀ x ∈ ((Store.init CrashDemo.cfg.allowDup).run (mops.map MOp.abs)).blobs,
+    IdxAtCrash CrashDemo.cfg DemoB.sha x.recs (dirE x.id) := by
+  rw [blobs_eq]
+  intro x hx
+  simp only [List.mem_cons, List.not_mem_nil, or_false] at hx
+  rcases hx with rfl | rfl
+  · exact .absent
+  · have hl : (dumpedImage CrashDemo.cfg DemoB.sha (recs1.take 1)).map (·.length) = some 256 := by decide +kernel
+    refine IdxAtCrash.of_truncated_take _ _ recs1 1 0 (by decide) (fun img hd => ?_)
+    rw [hd] at hl
+    simp only [Option.map_some, Option.some.injEq] at hl
+    omega
+
+end CrashIdxDemo
+
+set_option maxRecDepth 1000000 in
+/-- **(2) as asked is FALSE for the cut at exactly 20 bytes** (the FINDING): blob 1 is cut back to its blob header and
+    an empty index file lies next to it.  Without the index file the blob is opened (empty) and becomes the active
+    blob; WITH it `Blob::from_file` rejects the index, sets `is_index_corrupted`, runs `try_regenerate_index` on the
+    header-only file, which fails with `Bincode`, and `read_blobs` moves blob 1 to the corrupted directory: blob 0
+    becomes the active blob (its index loaded into memory).  The index file satisfies `IdxAtCrash`; only `h20` fails.
+    The answers do not change (the blob held no record any more). -/
+theorem crash_index_beside_header_only :
+    (∀ x ∈ ((Store.init CrashDemo.cfg.allowDup).run (CrashIdxDemo.mops.map MOp.abs)).blobs,
+      IdxAtCrash CrashDemo.cfg DemoB.sha x.recs (CrashIdxDemo.dirE x.id)) ∧
+    CrashIdxDemo.dirE 1 = some [] ∧ openIndex CrashDemo.cfg 20 [] = .rejected ∧
+    (CrashIdxDemo.b.crashRecoverWithIndexes CrashDemo.cfg DemoB.sha CrashIdxDemo.cut20 CrashIdxDemo.dirE false).map
+      CrashIdxDemo.view = some ([(0, 155, false)], some 0, 2) ∧
+    (CrashIdxDemo.b.crashRecoverWithIndexes CrashDemo.cfg DemoB.sha CrashIdxDemo.cut20 (fun _ => none) false).map
+      CrashIdxDemo.view = some ([(0, 155, true), (1, 20, false)], some 1, 2) ∧
+    (CrashIdxDemo.b.crashRecoverWithIndexes CrashDemo.cfg DemoB.sha CrashIdxDemo.cut20 CrashIdxDemo.dirE true).map
+      CrashIdxDemo.view = some ([(0, 155, true)], none, 2) ∧
+    (CrashIdxDemo.b.crashRecoverWithIndexes CrashDemo.cfg DemoB.sha CrashIdxDemo.cut20 (fun _ => none) true).map
+      CrashIdxDemo.view = some ([(0, 155, true), (1, 20, false)], none, 2) ∧
+    (CrashIdxDemo.b.crashRecoverWithIndexes CrashDemo.cfg DemoB.sha CrashIdxDemo.cut20 CrashIdxDemo.dirE false).map
+      (fun b₁ => [1, 2, 3].map (fun k => b₁.readWithOpt CrashDemo.cfg k none)) =
+    (CrashIdxDemo.b.crashRecoverWithIndexes CrashDemo.cfg DemoB.sha CrashIdxDemo.cut20 (fun _ => none) false).map
+      (fun b₁ => [1, 2, 3].map (fun k => b₁.readWithOpt CrashDemo.cfg k none)) := by
+  refine ⟨CrashIdxDemo.dirE_ok, ?_, ?_, ?_, ?_, ?_, ?_, ?_⟩ <;> decide +kernel
+
+/-- … hence `crash_with_indexes_run` without the hypothesis `h20` has no proof -/
+theorem crash_with_indexes_header_only_false :
+    ¬ (∀ (cfg : Cfg) (sha : List Nat → List Nat) (ops : List MOp) (cut : Nat → Nat) (dir : Nat → Option (List Nat))
+        (lazy : Bool), BytesOK cfg sha → (∀ op ∈ ops, op.OK cfg) →
+        StoreIdxSized cfg ((Store.init cfg.allowDup).run (ops.map MOp.abs)) →
+        (∀ x ∈ ((Store.init cfg.allowDup).run (ops.map MOp.abs)).blobs, IdxAtCrash cfg sha x.recs (dir x.id)) →
+        ((BState.init cfg).runB cfg sha ops).crashRecoverWithIndexes cfg sha cut dir lazy =
+          ((BState.init cfg).runB cfg sha ops).crashRecoverWithIndexes cfg sha cut (fun _ => none) lazy) := by
+  intro hall
+  obtain ⟨h1, _, _, h4, h5, _⟩ := crash_index_beside_header_only
+  have := hall CrashDemo.cfg DemoB.sha CrashIdxDemo.mops CrashIdxDemo.cut20 CrashIdxDemo.dirE false
+    CrashIdxDemo.ok CrashIdxDemo.mops_ok CrashIdxDemo.store_idx_sized h1
+  have h6 := congrArg (Option.map CrashIdxDemo.view) this
+  rw [show (BState.init CrashDemo.cfg).runB CrashDemo.cfg DemoB.sha CrashIdxDemo.mops = CrashIdxDemo.b from rfl,
+    h4, h5] at h6
+  revert h6
+  decide
+
+end Pearl.E2E
+
+#print axioms Pearl.E2E.truncated_index_rejected
+#print axioms Pearl.E2E.index_beyond_cut_rejected
+#print axioms Pearl.E2E.index_at_crash_rejected_or_current
+#print axioms Pearl.E2E.crash_with_indexes
+#print axioms Pearl.E2E.crash_with_indexes_noTorn
+#print axioms Pearl.E2E.crash_with_indexes_torn
+#print axioms Pearl.E2E.recover_with_indexes_extends_restart
+#print axioms Pearl.E2E.crash_with_indexes_spec
+#print axioms Pearl.E2E.crash_with_indexes_run
+#print axioms Pearl.E2E.crash_with_indexes_spec_run
+#print axioms Pearl.E2E.crash_index_beside_header_only
+#print axioms Pearl.E2E.crash_with_indexes_header_only_false
+#print axioms Pearl.E2E.fromFileQ_ok_iff
+#print axioms Pearl.E2E.dirAtCrash_of_synced
+
 /-
 NOT YET PROVED
   * the general (non-witness) form of the QUARANTINE half of the two-crash history: "after an accepted torn tail, records
@@ -974,7 +1564,19 @@ NOT YET PROVED
   * `crash_torn_tail_E8_read_fails` gives a sufficient condition for the failing read (timestamps); the exact
     condition in terms of `Spec` ("the first-ranked record of the key is the torn one") needs a position-aware
     refinement relation (`RR` relates records, not positions).
-  * index files that are present after the crash (kept / truncated): taken as removed, as the task allows; the
-    rejection of a stale or truncated index file is C03 / C03b.
+  * index files that are present after the crash: PROVED for the contents of `IdxAtCrash` (absent, the complete image of
+    any earlier dump of the blob, any proper prefix of one, any stage of an interrupted two-phase dump) —
+    `crash_with_indexes`.  Not covered: (a) index-file bytes outside that class (a foreign file; bytes changed in place,
+    length kept: `accepted_but_wrong_index` of `Props/EndToEnd.lean` shows such a file can be accepted); (b) pages of
+    the phase-1 buffer reaching the disk OUT OF ORDER (the crash model is "a prefix of each write survives"; a file
+    with the complete header, `written` SET, and holes in the body cannot arise from `from_records` under that model,
+    since the `written` byte is only set by the second write, after the whole buffer — it would need reordering across
+    the two writes, which only the final `fsyncdata` orders); (c) the index file of a QUARANTINED blob stays in the
+    working directory (`save_corrupted_blob` moves the blob file only) — not modelled, it is never opened again
+    because `read_blobs` iterates over blob files.
+  * the cut at exactly 20 bytes WITH an index file next to it: stated on the witness
+    (`crash_index_beside_header_only`: the blob is quarantined, the answers do not change); the general form "the
+    recovered storage is the index-less one minus that empty blob, same answers" is not done.
 Statements FALSE of the model, refuted above: see the header of this file.
 -/
+
